@@ -10,6 +10,11 @@ from framelint.canon import (canon_function, show, S, to_poly, mk_lt, mk_not, mk
                              single_defs, deref, Poly)
 from framelint.cfg import ENTRY, EXIT
 from .common import SPEC, SPECALG, MODULE, call_name, norm_stmt, stmt_calls, facts_text
+from framelint.canon import canon_function as _canon_function_expanded
+
+def canon_function(fi, model=None, opts=None):   # rules of this file match shapes: look through every local
+    return _canon_function_expanded(fi, model, opts, expand=True)
+
 
 
 def _events(ctx: Ctx, f, coord: str, dim: str):
